@@ -50,6 +50,7 @@ type pubAudio struct {
 	item int
 	ts   uint32
 	data []byte
+	asc  []byte // AAC: the AudioSpecificConfig in force when the frame was published
 }
 
 type published struct {
@@ -61,10 +62,13 @@ type published struct {
 	audio []pubAudio
 }
 
-func buildPublished(cd gen.Codecs, all []gen.Item) *published {
-	p := &published{cd: cd, items: all}
+func buildPublished(cd gen.Codecs, all []gen.Item, ascExt int) *published {
+	p := &published{cd: cd, items: all, asc: ascBytes(cd, ascExt)}
+	cur := p.asc
 	for i, it := range all {
 		switch it.Kind {
+		case "ash":
+			cur = ascFor(cd, ascExt, it.Variant)
 		case "video":
 			v := pubVideo{item: i, ts: it.Ts, cts: it.Cts}
 			for _, n := range it.Nals {
@@ -80,7 +84,7 @@ func buildPublished(cd gen.Codecs, all []gen.Item) *published {
 			if len(pl) <= skip {
 				continue // an AAC raw message without data is not a frame
 			}
-			p.audio = append(p.audio, pubAudio{item: i, ts: it.Ts, data: pl[skip:]})
+			p.audio = append(p.audio, pubAudio{item: i, ts: it.Ts, data: pl[skip:], asc: cur})
 		}
 	}
 	return p
@@ -427,9 +431,8 @@ type consState struct {
 func run(c Case) *pbt.Violation {
 	cd := c.Codecs
 	all := append(append([]gen.Item(nil), c.Items...), tailItems(cd, c.Items, c.Wrap)...)
-	pub := buildPublished(cd, all)
+	pub := buildPublished(cd, all, c.AscExt)
 	pub.wrap = c.Wrap
-	pub.asc = ascBytes(cd, c.AscExt)
 	ready := sdpReadyAfter(cd, all)
 	if ready < 0 {
 		harness("model: the session description never becomes available")
@@ -520,7 +523,7 @@ func run(c Case) *pbt.Violation {
 		if k < len(all) {
 			var err error
 			if all[k].Kind == "ash" {
-				err = p.Send(gen.TypeAudio, all[k].Ts, append([]byte{0xAF, 0}, pub.asc...), 0)
+				err = p.Send(gen.TypeAudio, all[k].Ts, append([]byte{0xAF, 0}, ascFor(cd, c.AscExt, all[k].Variant)...), 0)
 			} else {
 				err = p.SendItem(all[k], cd, 0)
 			}
